@@ -36,6 +36,13 @@ def seeds():
         m = json.load(open(mp))
         how = ""
         for c, r in m.get("check_results", {}).items():
+            if r.get("exit") and not r.get("replay") and r.get("violation_lines"):
+                v = r["violation_lines"][0]
+                kind = "impl-vs-spec (concrete failing input)" if "-spec-" in v else "impl-vs-model" if "-model-" in v else "broken obligation" if "obligation" in v else "violation"
+                if "no-failing-input-found" in v:
+                    kind += ", no-failing-input-found"
+                how = "%s: %s" % (c, kind)
+                break
             if r.get("exit") and r.get("replay"):
                 rp = r["replay"]
                 how = "%s: %s" % (c, (rp.get("kind", "") or "broken obligation").split(" (")[0]) + (" on `%s`" % rp["case"][:70].replace("|", "\\|") if rp.get("case") else "")
